@@ -1763,6 +1763,12 @@ class Cluster(object):
                 self._is_setup = True
 
         session = self._new_session(keyspace)
+        if self.is_shutdown:
+            # shutdown() ran while the session was being created; it sets is_shutdown
+            # before it looks at self.sessions, so either it has seen this session or
+            # we see the flag here
+            session.shutdown()
+            raise DriverException("Cluster is already shut down")
         if wait_for_all_pools:
             wait_futures(session._initial_connect_futures)
 
